@@ -45,11 +45,22 @@ macro "dec_cases" k:term:max p:ident : tactic =>
                simp (disch := omega) [h, h', Res.bind, bind, pure, Kind.code, if_pos, if_neg]
                first | done | ((repeat' split) <;> simp_all <;> (first | omega | (apply take_drop_all; omega) | skip))))
 
+/-- the same with the error flag decided first and the in-bounds facts re-applied after every split (guards in any order,
+several length tests) -/
+macro "dec_cases_flag" k:term:max p:ident : tactic =>
+  `(tactic| (cases hE : ($p).isError <;> by_cases h : sizeOk $k ($p).data.length = true <;>
+             (have h' := h
+              simp only [sizeOk, beq_iff_eq, decide_eq_true_eq] at h'
+              simp (disch := omega) [h, h', hE, rd_eq, Res.bind, bind, pure, Kind.code, if_pos, if_neg]
+              first | done | ((repeat' split) <;> (try simp (disch := omega) [rd_eq, Res.bind] at *) <;> (try simp_all) <;>
+                (first | omega | (apply take_drop_all; omega) | skip)))))
+
 macro "dec_agree" f:ident k:term : tactic =>
   `(tactic| first
     | (intro p; exact DecAgrees.of_eq rfl)                       -- not translated on this run
     | (intro p; refine DecAgrees.of_eq ?_; dec_unfold $f; dec_cases $k p)   -- same guard order: equal outright
-    | (intro p; unfold DecAgrees; dec_unfold $f; dec_cases $k p))   -- any guard order: same acceptance, no panic
+    | (intro p; unfold DecAgrees; dec_unfold $f; dec_cases $k p)   -- any guard order: same acceptance, no panic
+    | (intro p; unfold DecAgrees; dec_unfold $f; dec_cases_flag $k p))   -- … also with several length tests, the flag tested late
 
 theorem src_decode_bootloaderHello : ∀ p, DecAgrees .bootloaderHello (Src.decode_bootloaderHello p) p := by dec_agree Src.decode_bootloaderHello Kind.bootloaderHello
 theorem src_decode_programmerHello : ∀ p, DecAgrees .programmerHello (Src.decode_programmerHello p) p := by dec_agree Src.decode_programmerHello Kind.programmerHello
